@@ -4,7 +4,7 @@ from __future__ import annotations
 
 import numpy as np
 
-from .. import gen, monitors
+from .. import derive, gen, monitors
 
 PID = "C02"
 ANCHORS = ["scores.py:Scores._invert_increasing_function", "scores.py:Scores._threshold_at_ratio",
@@ -41,7 +41,8 @@ def cases(ctx):
         ep, en = gen.easy(rng)
         sc, ec = gen.cfg(rng)
         yield {"pos": pos, "neg": neg, "ep": ep, "en": en, "sc": sc, "ec": ec, "kind": kind,
-               "u": rng.uniform(0, 1, 12), "form": str(rng.choice(["array", "array", "array", "scalar", "list", "2d"]))}
+               "u": rng.uniform(0, 1, 12), "form": str(rng.choice(["array", "array", "array", "scalar", "list", "2d"])),
+               "via": str(rng.choice(derive.VIAS)), "_seed": int(rng.integers(1 << 31))}
 
 
 def scenarios(ctx):
@@ -70,7 +71,8 @@ def _targets(s, metric, u):
 def execute(ctx, case):
     from score_analysis import BootstrapConfig, Scores, roc, roc_with_ci
 
-    s = Scores(case["pos"], case["neg"], nb_easy_pos=case["ep"], nb_easy_neg=case["en"], score_class=case["sc"], equal_class=case["ec"])
+    with monitors.oracle_scope_ctx():  # the warm-up queries of a history are not part of what is judged here
+        s = derive.build(case["pos"], case["neg"], case["ep"], case["en"], case["sc"], case["ec"], case.get("via", "ctor"), case.get("_seed", 0))
     form, u = case["form"], case["u"]
     if form == "traffic":
         np.random.seed(case["_seed"])
